@@ -1407,3 +1407,10 @@ def _slice_swap(it, a, c):
     if i >= len(l) or j >= len(l): raise PanicPath('index out of bounds: swap(%d, %d) on len %d' % (i, j, len(l)))
     l[i], l[j] = l[j], l[i]
     return UNIT()
+
+
+@model('std::string::String::into_bytes', 'alloc::string::String::into_bytes')
+def _string_into_bytes(it, a, c):
+    x = deref(a[0])
+    if isinstance(x, Str) and x.s is not None and not x.canon: return Str(x.s, canon=[x])        # an owned byte vector holding the text's bytes
+    return x
